@@ -46,6 +46,8 @@ type passResult struct {
 	DataDiff  []string // per datum: description of a change across the concurrent run ("" = unchanged)
 	Log       []verifsim.SwitchEvent
 	TotalStep uint64
+	LibGo     int // goroutines the library started during the pass
+	LibChan   int // channel operations of the library under the scheduler
 }
 
 type runEnv struct {
@@ -343,6 +345,7 @@ func runHistory(p *plan.SchedPlan, order []opRef) *passResult {
 		res.Recs[r.T][r.J] = e.doOp(r.T, op, &locals[r.T], true)
 	}
 	res.TotalStep = verifsim.Steps()
+	res.LibGo = verifsim.Spawned()
 	verifsim.SetMode(verifsim.ModeOff)
 	res.lookAgain()
 	return res
@@ -422,6 +425,7 @@ func runConc(p *plan.SchedPlan, refSteps [][]int) *passResult {
 	res.Stats = verifsim.RunStats()
 	res.Log = verifsim.Log()
 	res.TotalStep = verifsim.Steps()
+	res.LibGo, res.LibChan = verifsim.Spawned(), verifsim.ChanOps()
 	res.lookAgain()
 	for i, d := range e.data {
 		if after := Canon(d, true); after != before[i] {
@@ -1225,6 +1229,10 @@ type schedResult struct {
 	HookFired  int       `json:"hook_failures_fired"`
 	Mutates    int       `json:"mutations"`
 	GCs        int       `json:"gcs"`
+	Jumps      int       `json:"clock_jumps"`
+	LibGo      int       `json:"library_goroutines"`
+	LibChan    int       `json:"library_channel_ops"`
+	Scribbles  int       `json:"results_edited_by_caller"`
 	Errored    int       `json:"ops_errored"`
 	True       int       `json:"ops_true"`
 	False      int       `json:"ops_false"`
@@ -1257,6 +1265,7 @@ func outcomeDigest(res *passResult) uint64 {
 func summarise(p *plan.SchedPlan, run *passResult, conc bool, findings []Finding) schedResult {
 	sr := schedResult{Type: "result", Index: p.Index, Property: p.Property, K: len(p.Tasks), Ops: p.NOps(), Policy: p.Policy,
 		Steps: run.TotalStep, Findings: findings, PlanHash: planHash(p), OutDigest: outcomeDigest(run)}
+	sr.LibGo, sr.LibChan = run.LibGo, run.LibChan
 	type objState struct {
 		calls int
 		data  map[int]bool
@@ -1283,6 +1292,10 @@ func summarise(p *plan.SchedPlan, run *passResult, conc bool, findings []Finding
 				sr.Panicked++
 			}
 			sr.OrderDec += rec.NDec
+			sr.Jumps += len(op.Jumps)
+			if op.Scribble != 0 && op.Kind == "exec" {
+				sr.Scribbles++
+			}
 			switch op.Kind {
 			case "mutate":
 				sr.Mutates++
